@@ -117,6 +117,20 @@ def run(W, chk):
                    "sent %s vs subtracted %s (reserve ops %s)" % (sorted(sent), sorted(sub), sorted(base)), where(pw[0]))
         den_s = all_origins(A.d(vfield(vfield(field_val(sends[0], "amount"), "[*]"), "denom")))
         chk.expect(den_s == {"Store(POOLS).assets[*].denom"}, "PROV-withdraw-same-vector", "denoms", "refund denoms are the pool's", "refund denoms %s" % sorted(den_s), where(sends[0]))
+        okp = False
+        for e in A.switches():
+            if not e.fn.endswith("withdraw_liquidity"):
+                continue
+            for a in e.vals[0].atoms:
+                if isinstance(a[0], tuple) and a[0][0] == "pred" and a[0][1] == "discr" and "#may:pos" in a[0][2].fields:
+                    for b in a[0][2].fields["#may:pos"].atoms:
+                        if isinstance(b[0], tuple) and b[0][1] == "eq" and exact_origins(b[0][2]) == {"Store(POOLS).assets[*].denom"} \
+                                and exact_origins(b[0][3]) == {"Store(POOLS).assets[*].denom"}:
+                            okp = True
+        n_enum = len([e for e in A.calls(r"Iterator::enumerate$") if e.fn.endswith("withdraw_liquidity")])
+        chk.expect(okp and n_enum == 0, "PROV-withdraw-same-vector", "index-by-denom", "each refund is subtracted from the reserve with the refund's own denom",
+                   "the reserve debited for a refund is not selected by denom (position-by-denom found: %s, positional enumerate: %d); after zero refunds "
+                   "are filtered out the indices shift" % (okp, n_enum), A.entry)
     else:
         chk.fail("PROV-withdraw-same-vector", "WithdrawLiquidity", "anchors missing (sends %d, pool writes %d)" % (len(sends), len(pw)), A.entry)
 
